@@ -61,6 +61,8 @@ func runStatic(prog *Prog, sc StaticCheck) *StaticResult {
 		return runArgOrigin(prog, sc)
 	case "publishes-fresh":
 		return runPublishesFresh(prog, sc)
+	case "rmw-atomic":
+		return runRMWAtomic(prog, sc)
 	case "critical-section":
 		return runCriticalSection(prog, sc)
 	case "atomic-write":
